@@ -266,14 +266,16 @@ func init() {
 		ID: "C22",
 		Explanation: "Decides structural necessary conditions of 'the grammar compiler never crashes and reports in-range diagnostics': EXIT: the process-exit/panic sites reachable (call graph from compiler.Compile, restricted to packages the compiler links) equal an audited table, each line with the invariant that keeps grammar text away from it; a new site fails as unaudited. STAGEGATE: each pipeline stage of compileParser runs only if the previous one returned no error. ASSERTTY: every unchecked type assertion on an option value asserts the type of that option's default. " +
 			"CYCLE: no unbounded recursion over cyclic token sets. ESCAPE: validation data is not kept in a recycled scratch buffer. CURSOR: the grammar lexer (parsers/tm) never reads l.source past its end and never advances the cursor unguarded. UNITS(bytes): no rune-counting value flows into SourceRange offsets/columns. GUARD(optimize-la), DTX(rune-fold): the obligations cited by audited exit sites. " +
-			"Not decided: index-out-of-range and nil dereference on malformed models in general, line/column consistency beyond the unit rule. GUARD(lookup-index): a slice is indexed with the result of a comma-ok map lookup only on the ok path (no panic after a 'not a valid category reference' diagnostic). CYCLE(memo): a hit of the in-progress marker of longestPhrase's memo never reaches the recursive call (an unbounded lookahead is a diagnostic, not a stack overflow). GUARD(valid-anchor): a diagnostic is anchored at an optional syntax node only under IsValid() (it always carries a location). OPTIONMAP and MUSTPASS(compile-order) as in C05. CYCLE(memo) also requires that after a miss the key is entered in the memo before the recursive call. FIELDCOV(expr-origin): every syntax.Expr literal in syntax/ and compiler/ sets Origin (rules and diagnostics made from a synthesised expression dereference its source node). FIELDROLE(input): syntax.Input.NoEoi/Synthetic are consulted in their role only (addSyntheticInputs pre-populates its seen set with no-eoi inputs only; otherwise a plain %input suppresses the synthetic lookahead input and generateTables exits through log.Fatalf).",
-		Rules: []string{"EXIT", "STAGEGATE", "ASSERTTY", "OPTIONMAP", "CYCLE", "ESCAPE", "CURSOR", "UNITS(bytes)", "GUARD(optimize-la)", "DTX(rune-fold)", "CYCLE(memo)", "GUARD(lookup-index)", "GUARD(valid-anchor)", "MUSTPASS(compile-order)", "FIELDCOV(expr-origin)", "FIELDROLE(input)"},
+			"Not decided: index-out-of-range and nil dereference on malformed models in general, line/column consistency beyond the unit rule. GUARD(lookup-index): a slice is indexed with the result of a comma-ok map lookup only on the ok path (no panic after a 'not a valid category reference' diagnostic). CYCLE(memo): a hit of the in-progress marker of longestPhrase's memo never reaches the recursive call (an unbounded lookahead is a diagnostic, not a stack overflow). GUARD(valid-anchor): a diagnostic is anchored at an optional syntax node only under IsValid() (it always carries a location). OPTIONMAP and MUSTPASS(compile-order) as in C05. CYCLE(memo) also requires that after a miss the key is entered in the memo before the recursive call. FIELDCOV(expr-origin): every syntax.Expr literal in syntax/ and compiler/ sets Origin (rules and diagnostics made from a synthesised expression dereference its source node). FIELDROLE(input): syntax.Input.NoEoi/Synthetic are consulted in their role only (addSyntheticInputs pre-populates its seen set with no-eoi inputs only; otherwise a plain %input suppresses the synthetic lookahead input and generateTables exits through log.Fatalf). GUARD(next-element): every s[i+1] inside a range loop over the same sequence is governed by a comparison of that i+1 with a bound (the sort-delay test of Expand looks at m.Nonterms[i+1]). SENTINEL(universe): under useTransitions the universe of the follow sets is 1 + len(follow), so that the sentinel allTokensMarker == len(follow) is a member.",
+		Rules: []string{"EXIT", "STAGEGATE", "ASSERTTY", "OPTIONMAP", "CYCLE", "ESCAPE", "CURSOR", "UNITS(bytes)", "GUARD(optimize-la)", "DTX(rune-fold)", "CYCLE(memo)", "GUARD(lookup-index)", "GUARD(valid-anchor)", "MUSTPASS(compile-order)", "FIELDCOV(expr-origin)", "FIELDROLE(input)", "GUARD(next-element)", "SENTINEL(universe)"},
 		Run: func(c *Ctx) {
 			ruleLOOKUPIDX(c, "syntax", "compiler", "grammar", "gen", "lalr", "lex")
 			ruleMEMOCYCLE(c, "compiler", "syntax", "lalr", "grammar")
 			ruleNILANCHOR(c, "compiler")
 			ruleEXPRORIGIN(c)
 			ruleFIELDROLE(c)
+			ruleSENTINELUNIVERSE(c)
+			ruleNEXTELEMENT(c, "syntax", "compiler", "lalr", "grammar", "lex", "util/ident")
 			ruleEXIT(c)
 			ruleSTAGEGATE(c)
 			ruleASSERTTY(c)
@@ -356,8 +358,8 @@ func init() {
 	register(&Property{
 		ID: "C16",
 		Explanation: "Decides structural necessary conditions of 'semantic action references bind to the right symbols': STACKIDX on the code emitted for $-references in every committed applyRule case (slots inside the rule, or inside the prefix for mid-rule actions). GUARD(markerfree): ActionVars.SymRefCount (the stack depth references are computed from) counts only non-marker symbols. " +
-			"LOCKSTEP(reference): ActionVars.resolve reports the position whose stack index it returns (the generator picks the type assertion by position). GUARD(remap-markerfree): the position remap stores the count of pushed symbols (never a length of rule.RHS, which includes state markers). FIELDCOV(extract-pos): the reference that replaces an extracted set/list carries expr.Pos on every path to its return. Not decided: that K is the slot of the named symbol in every expansion. FIELDCOV(action-key): every ActionVars field that commandExtractor.extract consults (SymRefCount becomes the stack offset) is part of ActionVars.String(), the key under which identical mid-rule actions share one nonterminal. FIELDCOV(renumber): both passes that renumber nonterminals (Instantiate, Rearrange) write every record that holds symbol numbers: Expr.Symbol, ArgRef.Symbol (the table $-references and their types resolve against), TokenSet.Symbol, Input.Nonterm. CONSISTENT(scope-map): the existence probes by which pushName finds a free name#N all consult the same (top-level) map.",
-		Rules: []string{"STACKIDX", "GUARD(markerfree)", "LOCKSTEP(reference)", "GUARD(remap-markerfree)", "FIELDCOV(extract-pos)", "FIELDCOV(action-key)", "FIELDCOV(renumber)", "CONSISTENT(scope-map)"},
+			"LOCKSTEP(reference): ActionVars.resolve reports the position whose stack index it returns (the generator picks the type assertion by position). GUARD(remap-markerfree): the position remap stores the count of pushed symbols (never a length of rule.RHS, which includes state markers). FIELDCOV(extract-pos): the reference that replaces an extracted set/list carries expr.Pos on every path to its return. Not decided: that K is the slot of the named symbol in every expansion. FIELDCOV(action-key): every ActionVars field that commandExtractor.extract consults (SymRefCount becomes the stack offset) is part of ActionVars.String(), the key under which identical mid-rule actions share one nonterminal. FIELDCOV(renumber): both passes that renumber nonterminals (Instantiate, Rearrange) write every record that holds symbol numbers: Expr.Symbol, ArgRef.Symbol (the table $-references and their types resolve against), TokenSet.Symbol, Input.Nonterm. CONSISTENT(scope-map): the existence probes by which pushName finds a free name#N all consult the same (top-level) map. PAIR(pop-propagation) and SENTINEL(remap-absent) as in C17: names of deeper groups stay addressable, and a reference to an absent optional symbol resolves to -1, not to stack slot 0.",
+		Rules: []string{"STACKIDX", "GUARD(markerfree)", "LOCKSTEP(reference)", "GUARD(remap-markerfree)", "FIELDCOV(extract-pos)", "FIELDCOV(action-key)", "FIELDCOV(renumber)", "CONSISTENT(scope-map)", "PAIR(pop-propagation)", "SENTINEL(remap-absent)"},
 		Run: func(c *Ctx) {
 			ruleREMAP(c)
 			ruleSCOPEMAP(c)
@@ -367,6 +369,8 @@ func init() {
 			ruleSTACKIDX(c)
 			ruleMARKERFREE(c)
 			ruleREFPAIR(c)
+			rulePOPRULE(c)
+			ruleREMAPABSENT(c)
 		},
 	})
 	register(&Property{
@@ -407,8 +411,8 @@ func init() {
 		ID: "C07",
 		Explanation: "Decides structural necessary conditions of 'LALR(k) resolution never changes the language': CODEC(deep-pointer): lookahead pointers are encoded as -3-offset by every writer (trie emitter, populateTables, the Lalr patch) and decoded as -action-3 by every reader (Optimize, minimize's partitioning, each generated lalr()), and generated parse loops treat action < -2 as a pointer. MUSTPASS(trie-id): a minimized trie node receives its id before it is published in the shared cache. " +
 			"DTX(resolved-flag): a conflict is marked resolved only if no lookahead terminal failed (the flag only moves from true to false inside the terminal loop); UsedLADepth is raised with every patched pointer. GUARD(optimize-la): tables with pointers are not handed to Optimize. ORDER: the trie's map iterations are sorted (C18). GUARD(terminal-follow): both phases of buildLA (in-rule and cross-rule) contribute to the follow sets of terminal transitions when follow sets hold transitions (k>1). LOOPSHAPE(collect-all): the loops that gather a rule's transitions on the conflict terminal run to exhaustion. WHOCALLS(Lexer.Next): the deep-lookahead loop (like every parser-side fetch) reads tokens through the filter that drops injected comment/invalid tokens. " +
-			"Not decided: soundness of the trie (which rule a lookahead string selects). MUSTPASS(compile-order): lookahead resolution runs after the tables are populated and before conflicts are reported. MUSTPASS(trie-id) also requires the id counter to be a field of the builder that owns the cross-conflict cache; GUARD(terminal-follow) requires the terminal case of the cross-rule phase to sit in the same backward walk as the nonterminal case. LOSTWRITE(range-copy): a store into a field of a `for _, e := range` copy of a struct element is read later in the iteration or written back (the minimised child of a lookahead-trie node reaches n.edges[i].child). SIGNATURE(lalr-cell) as in C06: when the DFA is minimised, references to deep-lookahead automata stay part of a state's signature. PROPAGATE(unresolved): in trieBuilder.resolve a nil answer of the recursive call returns nil for the whole node (a conflict is resolved only if every continuation is). LOOPCARRY(deep-lookahead): in the generated parsers the scratch copy of the lexer/stream from which an lalr(k) decision reads further tokens is made outside the loop that consumes from it.",
-		Rules: []string{"CODEC(deep-pointer)", "MUSTPASS(trie-id)", "DTX(resolved-flag)", "GUARD(optimize-la)", "GUARD(terminal-follow)", "WHOCALLS(Lexer.Next)", "LOOPSHAPE(collect-all)", "MUSTPASS(compile-order)", "LOSTWRITE(range-copy)", "SIGNATURE(lalr-cell)", "PROPAGATE(unresolved)", "LOOPCARRY(deep-lookahead)"},
+			"Not decided: soundness of the trie (which rule a lookahead string selects). MUSTPASS(compile-order): lookahead resolution runs after the tables are populated and before conflicts are reported. MUSTPASS(trie-id) also requires the id counter to be a field of the builder that owns the cross-conflict cache; GUARD(terminal-follow) requires the terminal case of the cross-rule phase to sit in the same backward walk as the nonterminal case. LOSTWRITE(range-copy): a store into a field of a `for _, e := range` copy of a struct element is read later in the iteration or written back (the minimised child of a lookahead-trie node reaches n.edges[i].child). SIGNATURE(lalr-cell) as in C06: when the DFA is minimised, references to deep-lookahead automata stay part of a state's signature. PROPAGATE(unresolved): in trieBuilder.resolve a nil answer of the recursive call returns nil for the whole node (a conflict is resolved only if every continuation is). LOOPCARRY(deep-lookahead): in the generated parsers the scratch copy of the lexer/stream from which an lalr(k) decision reads further tokens is made outside the loop that consumes from it. SENTINEL(universe): under useTransitions the universe of the follow sets is 1 + len(follow), so that the sentinel allTokensMarker == len(follow) is a member.",
+		Rules: []string{"CODEC(deep-pointer)", "MUSTPASS(trie-id)", "DTX(resolved-flag)", "GUARD(optimize-la)", "GUARD(terminal-follow)", "WHOCALLS(Lexer.Next)", "LOOPSHAPE(collect-all)", "MUSTPASS(compile-order)", "LOSTWRITE(range-copy)", "SIGNATURE(lalr-cell)", "PROPAGATE(unresolved)", "LOOPCARRY(deep-lookahead)", "SENTINEL(universe)"},
 		Run: func(c *Ctx) {
 			ruleCOLLECTALL(c)
 			ruleWHOCALLS(c)
@@ -416,6 +420,7 @@ func init() {
 			ruleLALRK(c)
 			ruleTRIEUNRESOLVED(c)
 			ruleDEEPLACOPY(c)
+			ruleSENTINELUNIVERSE(c)
 			ruleLOSTWRITE(c, "lalr")
 			ruleSIGCELL(c)
 			ruleCOMPILEORDER(c)
@@ -445,8 +450,8 @@ func init() {
 	register(&Property{
 		ID: "C17",
 		Explanation: "Decides structural necessary conditions of 'generation completes and the generated Go code builds' on the template trees (parsed with text/template/parse, never executed, so option branches no shipped grammar instantiates are covered): TMPLGUARD: in parser.go/parser_tables.go/stream.go templates, node-type identifiers (NodeType/NodeFlags via nodeTypeRef…, node_id) appear only under guards implying .Parser.Types. TMPL(threshold): a numeric threshold tested by two Go templates is tested identically (helper emitted iff called). " +
-			"TMPLNAMES: every {{template}} resolves and every pipeline function is registered. ERRGUARD: a return taken because error E is non-nil returns E (gen.Generate and the compiler packages). Not decided: the option x feature space as a whole; Go type-correctness of un-instantiated branches. PAIR(intern): the idx, ok := m[k]; if !ok { idx = len(list); append } idiom records idx under k (no duplicate node types, which would be redeclared constants in listener.go). AGREE(session): (*Grammar).NeedsSession, evaluated for every assignment of the options that guard members of the template's session struct, is true exactly when lookaheads exist and a member exists (a use site never names a member that parse() declared as a local). AGREE(file-deps): on every path of gen.(*language).templates (all option combinations) each generated package that a selected group of Go files imports ({{pkg \"selector\"}}, token) is written by a selected group. AGREE(call-arity): every call of a TokenStream method whose first parameter exists only under an option guard (next: ctx under Cancellable and CancellableFetch) adds the argument under the same guard (template-tree sibling check: the text `.next(` is followed by the matching {{if}}). TMPL(def-use): for every helper function defined in go_parser.go.tmpl, the guard formula of each call site (and/or/not over the atomic template conditions, single-assignment template variables substituted, customisation switches taken as enabled) implies the guard formula of a definition, checked for every truth assignment. PAIR(seen-set): every once-only guard `if !seen[k]` records k in its branch. GUARD(inline-unique): canInlineRules refuses to inline when two lexer rules share a token. GUARD(synthetic-name-free): the synthetic category TokenSet is added only when that name is free among the declared categories and among the node types (both become declarations of the generated package). ONCE(go-decl): every emission of a Go short variable declaration inside goParserAction's reference loop is guarded by a failed seen-set lookup whose key is recorded in the same block (an action that mentions a symbol twice still builds). DEDUP(marker-states): minimize de-duplicates the remapped state list of a marker against a seen-set (the renumbering is not monotone; a repeated state is a duplicate key in the generated marker map). TMPL(field-use): every use of an option-guarded field of Lexer, TokenStream or Parser in go_lexer/go_stream/go_parser templates is emitted only for option combinations for which the field is declared (guard formulas, all truth assignments). TMPL(node-id): the declaration of node type constants in listener.go and every reference to them from generated Go code print the identifier through node_id (nodePrefix + name), so a non-empty nodePrefix still builds. GUARD(comment-single-line): the constant text of a pattern is tested for line breaks before it becomes the token's line comment (otherwise the generated token enum gains a stray constant and the following token values shift).",
-		Rules: []string{"TMPLGUARD", "TMPL(threshold)", "TMPLNAMES", "ERRGUARD", "PAIR(intern)", "AGREE(session)", "AGREE(file-deps)", "AGREE(call-arity)", "TMPL(def-use)", "PAIR(seen-set)", "GUARD(inline-unique)", "GUARD(synthetic-name-free)", "ONCE(go-decl)", "DEDUP(marker-states)", "TMPL(field-use)", "TMPL(node-id)", "GUARD(comment-single-line)"},
+			"TMPLNAMES: every {{template}} resolves and every pipeline function is registered. ERRGUARD: a return taken because error E is non-nil returns E (gen.Generate and the compiler packages). Not decided: the option x feature space as a whole; Go type-correctness of un-instantiated branches. PAIR(intern): the idx, ok := m[k]; if !ok { idx = len(list); append } idiom records idx under k (no duplicate node types, which would be redeclared constants in listener.go). AGREE(session): (*Grammar).NeedsSession, evaluated for every assignment of the options that guard members of the template's session struct, is true exactly when lookaheads exist and a member exists (a use site never names a member that parse() declared as a local). AGREE(file-deps): on every path of gen.(*language).templates (all option combinations) each generated package that a selected group of Go files imports ({{pkg \"selector\"}}, token) is written by a selected group. AGREE(call-arity): every call of a TokenStream method whose first parameter exists only under an option guard (next: ctx under Cancellable and CancellableFetch) adds the argument under the same guard (template-tree sibling check: the text `.next(` is followed by the matching {{if}}). TMPL(def-use): for every helper function defined in go_parser.go.tmpl, the guard formula of each call site (and/or/not over the atomic template conditions, single-assignment template variables substituted, customisation switches taken as enabled) implies the guard formula of a definition, checked for every truth assignment. PAIR(seen-set): every once-only guard `if !seen[k]` records k in its branch. GUARD(inline-unique): canInlineRules refuses to inline when two lexer rules share a token. GUARD(synthetic-name-free): the synthetic category TokenSet is added only when that name is free among the declared categories and among the node types (both become declarations of the generated package). ONCE(go-decl): every emission of a Go short variable declaration inside goParserAction's reference loop is guarded by a failed seen-set lookup whose key is recorded in the same block (an action that mentions a symbol twice still builds). DEDUP(marker-states): minimize de-duplicates the remapped state list of a marker against a seen-set (the renumbering is not monotone; a repeated state is a duplicate key in the generated marker map). TMPL(field-use): every use of an option-guarded field of Lexer, TokenStream or Parser in go_lexer/go_stream/go_parser templates is emitted only for option combinations for which the field is declared (guard formulas, all truth assignments). TMPL(node-id): the declaration of node type constants in listener.go and every reference to them from generated Go code print the identifier through node_id (nodePrefix + name), so a non-empty nodePrefix still builds. GUARD(comment-single-line): the constant text of a pattern is tested for line breaks before it becomes the token's line comment (otherwise the generated token enum gains a stray constant and the following token values shift). SENTINEL(remap-absent): lookups in ActionVars.Remap whose key is not known to be present use the comma-ok form (an absent optional symbol is -1/nil, never stack slot 0 with a foreign type). PAIR(pop-propagation): popRule hands both the argRefs and the names of a finished nested group to the enclosing rule (an accepted grammar never fails in generation with `invalid reference`).",
+		Rules: []string{"TMPLGUARD", "TMPL(threshold)", "TMPLNAMES", "ERRGUARD", "PAIR(intern)", "AGREE(session)", "AGREE(file-deps)", "AGREE(call-arity)", "TMPL(def-use)", "PAIR(seen-set)", "GUARD(inline-unique)", "GUARD(synthetic-name-free)", "ONCE(go-decl)", "DEDUP(marker-states)", "TMPL(field-use)", "TMPL(node-id)", "GUARD(comment-single-line)", "SENTINEL(remap-absent)", "PAIR(pop-propagation)"},
 		Run: func(c *Ctx) {
 			ruleINTERN(c, "syntax", "compiler", "grammar", "gen", "lalr", "lex")
 			ruleSESSION(c)
@@ -461,6 +466,8 @@ func init() {
 			ruleTMPLFIELDUSE(c)
 			ruleTMPLNODEID(c)
 			ruleCOMMENTLINE(c)
+			ruleREMAPABSENT(c)
+			rulePOPRULE(c)
 			ruleTMPLGUARD(c)
 			ruleTMPLTHRESHOLD(c)
 			ruleTMPLNAMES(c)
